@@ -125,7 +125,24 @@ structure Cfg where
       cumulative ACK is valid up to `snd_max` (not only up to the possibly rewound `snd_nxt`), and an
       ACK that passes `snd_nxt` pulls it up. -/
   fixSndMax : Bool := false
+  /-- F-C13-2 repair, narrow form (Linux `tcp_fin_timeout`): `check_retx` also sweeps a socket the
+      application has closed that sits in `FIN_WAIT2` (our FIN acknowledged, nothing owed, waiting only for
+      the peer's FIN); after `retx_threshold · (retx_max + 1)` passes it is aborted and reaped. -/
+  fixFinWait2Timeout : Bool := false
   deriving DecidableEq, Repr, Inhabited
+
+/-- The tree before the SND.MAX repair of F-C06-8 (seven repairs: 080947f, 018714e, 2fda244, d10c607,
+    b0e0c79, 91a643a, a7d7737). -/
+def Cfg.committed7 : Cfg :=
+  { fixReack := true, fixWinUpdate := true, fixHsReset := true, fixRstAfterClose := true, fixReapOrphan := true,
+    fixQuietClose := true, fixSynWindow := true }
+
+/-- The tree with the SND.MAX repair (7797aa0), before the FIN_WAIT2 timeout of F-C13-2. -/
+def Cfg.committed8 : Cfg := { Cfg.committed7 with fixSndMax := true }
+
+/-- The code as committed in /repo after all repairs of this area (nine flags; the general
+    `fixOrphanTimeout` was not adopted and stays off). -/
+def Cfg.committed : Cfg := { Cfg.committed8 with fixFinWait2Timeout := true }
 
 /-- `advertised_window` (tcp.rs:1335). -/
 def advWindow (recvCap len : Nat) : Nat := min (recvCap - len) 65535
